@@ -54,6 +54,9 @@ func (j *job) runOps(ops []*token, trace func(string)) (int, []fired) {
 		fs := j.judge(ob, t, added, err, k2 != key, ob2, or2)
 		if (len(fs) == 0 || replayContinue) && j.typ == kproto.PrecommitType && ob2.ok && ob2.maj > 0 {
 			fs = append(fs, j.checkMakeCommit(vs, or2, ob2)...)
+			if j.keyOf(vs) != k2 {
+				fs = append(fs, fired{"makecommit-changed-state", "MakeCommit / VerifyCommit changed the vote set"})
+			}
 		}
 		if len(fs) > 0 && replayContinue && trace != nil && i < len(ops)-1 {
 			for _, f := range fs {
